@@ -149,6 +149,7 @@ def run(repo: Repo) -> Result:
     mods = _mod_sites(fmt.node)
     fmt_params = [p_ for p_ in fmt.params() if p_ != "self"]
     fmt_maps = {st.targets[0].id for st in ast.walk(fmt.node) if isinstance(st, ast.Assign) and len(st.targets) == 1 and isinstance(st.targets[0], ast.Name) and isinstance(st.value, (ast.DictComp, ast.Dict))}
+    fmt_maps |= {st.target.id for st in ast.walk(fmt.node) if isinstance(st, ast.AnnAssign) and isinstance(st.target, ast.Name) and isinstance(st.value, (ast.DictComp, ast.Dict))}
     if len(mods) != 1 or not (isinstance(mods[0].left, ast.Name) and mods[0].left.id in fmt_params) or not (isinstance(mods[0].right, ast.Name) and mods[0].right.id in fmt_maps):
         res.add("C26-PERCENT", fmt.qual, "mod", "TranslateNode._format_message must be `message_text % _vars`", fmt.file, fmt.line)
     vb = tag.methods["validate_message_block"]
